@@ -71,7 +71,9 @@ def tunnel_value(draw):
             v['15'] = draw(st.integers(0, 255))
         if draw(st.booleans()):
             v['129'] = draw(st.one_of(st.just('policy-1'), st.text(alphabet='abcXYZ09-_', min_size=0, max_size=40),
-                                      st.text(alphabet='ab', min_size=250, max_size=300)))
+                                      st.text(alphabet='ab', min_size=250, max_size=300),
+                                      # text as it may arrive through the REST API: not ASCII (refused, or encoded consistently)
+                                      st.sampled_from(['caf\u00e9', 'pol\u00edtica-1', '\u7b56\u7565', 'a\u00df', '\u20ac' * 5, 'x' * 20 + '\u00e9'])))
         if draw(st.booleans()):
             v6 = draw(st.booleans())
             v['6'] = {'asn': draw(vs.u32), 'afi': 'ipv6' if v6 else 'ipv4', 'address': draw(vs.ipv6_global if v6 else vs.ipv4_host)}
